@@ -3040,7 +3040,17 @@ impl CommandParser {
         }
         let key = Self::extract_bytes(&frames[1])?;
         let strategy = Self::extract_string(&frames[2])?;
-        let threshold = Self::extract_string(&frames[3])?.parse::<usize>()
+        // XTRIM key MAXLEN [=|~] threshold: the optional exactness marker is accepted
+        // (trimming is always exact, which "~" permits)
+        let mut threshold_idx = 3;
+        let marker = Self::extract_string(&frames[3])?;
+        if marker == "~" || marker == "=" {
+            threshold_idx = 4;
+        }
+        if frames.len() != threshold_idx + 1 {
+            return Err(FerrousError::Command(CommandError::WrongNumberOfArguments("XTRIM".into())));
+        }
+        let threshold = Self::extract_string(&frames[threshold_idx])?.parse::<usize>()
             .map_err(|_| FerrousError::Command(CommandError::InvalidIntegerValue))?;
         Ok(StreamCommand::XTrim { key, strategy, threshold })
     }
